@@ -24,15 +24,19 @@ def gen_case(rng, k):
     return {"driver": rng.choice(["canonical", "canonical", "fbmc"]), "intervals": ivs,
             "logger": rng.choice([None, 1, 1, 2, 3, -2]), "traj": rng.choice([None, 1, 2, -1]),
             "segments": segs, "entry": rng.choice(["run", "srun", "irun"]),
-            "seed": rng.randint(1, 2**31), "geom_seed": rng.randint(0, 10**6)}
+            "seed": rng.randint(1, 2**31), "geom_seed": rng.randint(0, 10**6),
+            # the driver's own logging_interval: it is the interval of the logger/trajectory the driver builds itself
+            # (streams=True) and must not influence any other observer
+            "logging_interval": rng.choice([1, 1, 2, 3, 4, 5]), "streams": rng.random() < 0.35}
 
 
 def model_obs(case):
     obs = []
+    st = case.get("streams", False)
     if case["logger"] is not None:
-        obs.append((1, case["logger"]))
+        obs.append((1, case.get("logging_interval", 1) if st else case["logger"]))
     if case["traj"] is not None:
-        obs.append((2, case["traj"]))
+        obs.append((2, case.get("logging_interval", 1) if st else case["traj"]))
     obs += [(10 + i, iv) for i, iv in enumerate(case["intervals"])]
     return obs
 
